@@ -487,7 +487,13 @@ def check_python_errors(ctx, F):
                             for e2 in r.events:
                                 if e2['kind'] == 'call' and e2['name'] in ('unwrap', 'expect') and e2['args'] and e2['args'][0] == rt:
                                     bad = 'constructor result is unwrapped: invalid input panics instead of raising ValueError'
-                (ctx.bad if bad else ctx.ok)('R2', 'Python front end maps constructor errors', b.defpath, bad or 'result of %s is not unwrapped' % c['name'], key=key)
+                anchored = b.defpath.startswith('pybindings::stream::model::Categorical::new') and b.dk != 'Closure'
+                if bad and not anchored:
+                    # a panic is an allowed way to fail (C19: "an error value or a panic"); only the anchored
+                    # mechanism (Categorical::new -> ValueError) is held to the stronger, documented behaviour
+                    ctx.ok('R2', 'Python front end fails cleanly on constructor errors', b.defpath, 'result of %s is unwrapped with expect(): invalid input raises a PanicException (allowed failure mode)' % c['name'], key=key)
+                else:
+                    (ctx.bad if bad else ctx.ok)('R2', 'Python front end maps constructor errors', b.defpath, bad or 'result of %s is not unwrapped (mapped / propagated)' % c['name'], key=key)
     ctx.extra['py_constructor_calls'] = n
 
 
